@@ -1731,7 +1731,7 @@ import itertools, numpy as np, funsor
 from collections import OrderedDict
 from funsor import Bint, Tensor
 funsor.set_backend("numpy")
-sizes = {c['sizes']!r}; terms = {c['terms']!r}; names = tuple({c['names']!r})
+sizes = {c['sizes']!r}; terms = {c['terms']!r}; names = tuple({c['names']!r}); op = {c['op']!r}
 ts = []
 for n, keys in enumerate(terms):
     shape = [sizes[k] for k in keys]
@@ -1739,12 +1739,13 @@ for n, keys in enumerate(terms):
 with funsor.interpretations.normalize:
     x = ts[0]
     for t in ts[1:]:
-        x = x * t
+        x = (x * t) if op == "mul" else (x + t)
 g = x.align(names)
 FAILS = tuple(g.inputs) != names
 for pt in itertools.product(*[range(sizes[k]) for k in names]):
     env = dict(zip(names, pt))
-    e = float(np.prod([t.data[tuple(env[k] for k in keys)] for t, keys in zip(ts, terms)]))
+    vals = [t.data[tuple(env[k] for k in keys)] for t, keys in zip(ts, terms)]
+    e = float(np.prod(vals)) if op == "mul" else float(np.sum(vals))
     FAILS = FAILS or float(g(**env).data) != e or (tuple(g.inputs) == names and float(g(*pt).data) != e)
 print("inputs", tuple(g.inputs), "FAILS", FAILS)
 """
@@ -1777,7 +1778,7 @@ def interleave_stream(ctx, n_rounds):
             allpts = list(itertools.product(*[range(sizes[k]) for k in names_all]))
             for names in itertools.permutations(names_all):
                 c = {"stream": "interleave", "terms": terms, "sizes": sizes, "names": list(names), "op": op}
-                py = py_interleave_snippet(c) if op == "mul" else None
+                py = py_interleave_snippet(c)
                 r = run(lambda: x.align(names))
                 if r[0] == "raise":
                     ctx.count("interleave:declined")
@@ -2095,7 +2096,7 @@ def correspond(ctx):
     materialize_stream(ctx, 250 if quick else 3000)
     slice_stream(ctx, 150 if quick else 1500)
     history_stream(ctx, 400 if quick else 4000)
-    classes_stream(ctx, 25 if quick else 250)
+    classes_stream(ctx, 16 if quick else 200)
     makeop_stream(ctx, 400 if quick else 3000)
     interleave_stream(ctx, 6 if quick else 40)
     ctx.exhaustive = True
